@@ -12,7 +12,7 @@ EXPLANATION = ("Each simulator is executed symbolically (symx) on every configur
                "condition; a failed obligation yields a model that is replayed on floats against the real code.")
 BOUNDS = {
     'quick': 'graphs G3 (all 7 graphs on <=3 nodes) x initial conditions up to automorphism; <=3 events for SIS-type; <=2 rejections per weighted selection',
-    'thorough': 'G3 + P4, S3, C4, paw; <=5 events for SIS-type; <=2 rejections',
+    'thorough': 'G3 + P4, S3 (SIR-type; not: fast_* from the S3 hub or two P4 nodes, fast_nonMarkov_SIR from the three S3 leaves with a symbolic horizon); SIS-type: <=5 exponential draws (Gillespie), <=7 (fast_SIS), fast_nonMarkov_SIS <=4 infection episodes incl. the initial ones (<=3 on K3 from one node, on P3 from three, on P3loop from the looped node; initial episodes only on K3 from two nodes; K3 from three nodes not run); <=2 rejections per weighted selection',
 }
 ASSUMPTIONS = [
     'floats modelled as mathematical reals',
@@ -52,6 +52,8 @@ def configs(tier):
                         for tmax in ('inf', 'sym'):
                             if tmax == 'sym' and (weights != 'none' or R0 or (full and (entry == 'Gillespie_SIR' or n > 3 or len(I0) > 1))):
                                 continue
+                            if tmax == 'sym' and entry == 'fast_nonMarkov_SIR' and g == 'S3' and len(I0) == 3:
+                                continue    # three leaves with tied/zero delays and a symbolic horizon: beyond the path cap (tmax=inf is kept)
                             tags = [g, 'full' if full else 'plain', 'w:' + weights, 'tmax:' + tmax]
                             if R0:
                                 tags.append('R0')
@@ -86,7 +88,17 @@ def configs(tier):
                     elif entry == 'fast_SIS':
                         c.update(max_expo=2 * e - 1)
                     else:
-                        c.update(max_infections=e, delays_per_pair=1, ties=True)
+                        # episodes include the initial ones.  K3 with ties: 4 episodes exceed the path cap from every start,
+                        # 3 episodes do from two or three initial nodes (probed: >8000 paths) -- so K3 runs 3 episodes from one
+                        # node, the initial episodes only from two, and not at all from three (P3 covers the all-infected start)
+                        if g == 'K3' and len(I0) == 3:
+                            continue
+                        mi = e
+                        if g == 'K3':
+                            mi = 3 if len(I0) == 1 else 2
+                        elif len(I0) == 3:
+                            mi = 3
+                        c.update(max_infections=mi, delays_per_pair=1, ties=True)
                     out.append(c)
         if entry != 'fast_nonMarkov_SIS':
             for zero in ('tau', 'gamma'):
@@ -130,7 +142,7 @@ def configs(tier):
                 elif entry == 'fast_SIS':
                     c.update(max_expo=2 * e - 1)
                 elif entry == 'fast_nonMarkov_SIS':
-                    c.update(max_infections=e, delays_per_pair=1, ties=True)
+                    c.update(max_infections=(3 if I0 == [1] else e), delays_per_pair=1, ties=True)
                 elif 'discrete' in entry:
                     c['tmax'] = 'steps:2'
                 out.append(c)
